@@ -79,10 +79,48 @@ class _QubitRemapper(IRVisitor):
         return controlled_gate
 
 
-def get_remapped_ir(circuit: Circuit, mapping: Mapping) -> IR:
+class _QubitCollector(IRVisitor):
+    """Collects the indices of all qubits a statement refers to, without changing anything."""
+
+    def __init__(self) -> None:
+        self.indices: set[int] = set()
+
+    def _collect(self, statement: Statement, qubits: list[Qubit]) -> None:
+        arguments = getattr(statement, "arguments", None) or ()
+        for qubit in [*qubits, *(argument for argument in arguments if isinstance(argument, Qubit))]:
+            self.indices.add(qubit.index)
+
+    def visit_reset(self, reset: Reset) -> None:
+        self._collect(reset, [reset.qubit])
+
+    def visit_measure(self, measure: Measure) -> None:
+        self._collect(measure, [measure.qubit])
+
+    def visit_bloch_sphere_rotation(self, g: BlochSphereRotation) -> None:
+        self._collect(g, [g.qubit])
+
+    def visit_matrix_gate(self, g: MatrixGate) -> None:
+        self._collect(g, g.operands)
+
+    def visit_controlled_gate(self, controlled_gate: ControlledGate) -> None:
+        self._collect(controlled_gate, [controlled_gate.control_qubit])
+        controlled_gate.target_gate.accept(self)
+
+
+def _check_mapping_covers_circuit(circuit: Circuit, mapping: Mapping) -> None:
     if len(mapping) > circuit.qubit_register_size:
         msg = "mapping is larger than the qubit register size"
         raise ValueError(msg)
+    qubit_collector = _QubitCollector()
+    for statement in circuit.ir.statements:
+        statement.accept(qubit_collector)
+    if not qubit_collector.indices.issubset(mapping.keys()):
+        msg = "mapping does not cover all qubits used in the circuit"
+        raise ValueError(msg)
+
+
+def get_remapped_ir(circuit: Circuit, mapping: Mapping) -> IR:
+    _check_mapping_covers_circuit(circuit, mapping)
     qubit_remapper = _QubitRemapper(mapping)
     replacement_ir = circuit.ir
     for statement in replacement_ir.statements:
@@ -91,9 +129,7 @@ def get_remapped_ir(circuit: Circuit, mapping: Mapping) -> IR:
 
 
 def remap_ir(circuit: Circuit, mapping: Mapping) -> None:
-    if len(mapping) > circuit.qubit_register_size:
-        msg = "mapping is larger than the qubit register size"
-        raise ValueError(msg)
+    _check_mapping_covers_circuit(circuit, mapping)
     qubit_remapper = _QubitRemapper(mapping)
     for statement in circuit.ir.statements:
         statement.accept(qubit_remapper)
